@@ -25,9 +25,14 @@ class Module:
             self.tree = normalise(canon(ast.parse(text)), rel)
         except SyntaxError as e:  # pragma: no cover
             raise AnalysisError(f'{rel}: does not parse: {e}')
+        # (context / operator nodes are interpreter-wide singletons: a parent
+        # pointer on them would tie all loaded trees together)
+        shared = (ast.expr_context, ast.operator, ast.boolop, ast.unaryop,
+                  ast.cmpop)
         for node in ast.walk(self.tree):
             for child in ast.iter_child_nodes(node):
-                child._parent = node
+                if not isinstance(child, shared):
+                    child._parent = node
         self.lines = text.splitlines()
 
     # -- lookup helpers -----------------------------------------------------
